@@ -21,7 +21,7 @@ Matches(st, x) ==
     /\ st.store = x.store /\ st.iter = x.iter /\ st.root = x.root
     /\ AscSeq(TreeHeads(st)) = x.heads /\ st.mode = x.mode
 Adopt(x) == [store |-> x.store, root |-> x.root, att |-> ToSet(x.iter), iter |-> x.iter,
-             mode |-> x.mode, amb |-> FALSE]
+             mode |-> x.mode, amb |-> FALSE, cpath |-> <<>>]
 
 TraceInit == Init /\ l = 1 /\ drift = 0 /\ lastHist = <<>>
 
@@ -45,7 +45,7 @@ TrAdd ==
                    att   |-> IF x.isSnap THEN {x.id} ELSE st.att \cup {x.id},
                    iter  |-> IF x.isSnap THEN <<x.id>> ELSE Append(st.iter, x.id),
                    mode  |-> IF x.isSnap THEN "Rebuild" ELSE "Append",
-                   amb   |-> st.amb]
+                   amb   |-> st.amb, cpath |-> <<>>]
            \* the writer is honest: parents = its heads, snapshot base = its root (as Add)
            ok  == /\ hs = TreeHeads(st) /\ x.snap = st.root
                   /\ st2.store = x.st.store /\ st2.iter = x.st.iter /\ st2.root = x.st.root
@@ -99,7 +99,7 @@ TraceSpec == TraceInit /\ [][TraceNext]_tvars
 
 (* ---- properties, evaluated on recorded states ---- *)
 TraceInv ==
-    /\ TypeOK /\ Closed /\ StoreOrderIsCanon /\ IterIsCanonRestricted /\ CausalOrder
+    /\ TypeOK /\ Closed /\ PathIsActual /\ StoreOrderIsCanon /\ IterIsCanonRestricted /\ CausalOrder
     /\ ArrivalIndependent /\ SnapshotDominates
 
 TraceHistoryIsRestriction ==
